@@ -29,27 +29,27 @@ theorem csv_rendering_seen_by_detectors (items : List Item) (h : ∀ it ∈ item
   csvAll_render_raw items h hq
 
 /-- ACCEPTED SHEET = DECLARED TABLE (CSV format), partial: stated for renderings shorter than the 3072 bytes the
-detectors look at, without tab and without "binary data byte" (a vertical tab makes the file
-application/octet-stream for mimetype: old reader; beyond the window the detectors see a prefix cut at a line end: modelled
+detectors look at, that do not look like a sequence file (`seqFormatDetect`: the detectors the command attached
+to the mimetype tree when it opened its input) and hold no "binary data byte" (beyond the window the detectors see a prefix cut at a line end: modelled
 — `detectorInput` — and tied by the correspondence check, not covered by this theorem).  Such a rendering, when
 its records have a constant number > 1 of fields (or those that are not `@param` lines do), goes to
 `ReadCSVNGSFilter`, which works on exactly the declared records -/
 theorem accepted_csv_sheet_is_declared_table_partial (items : List Item) (hok : ∀ it ∈ items, it.OK)
     (hq : ∀ cs crlf, Item.row cs crlf ∈ items → ∀ c ∈ cs, (cellBytes c).head? ≠ some 34)
-    (htab : ∀ cs crlf, Item.row cs crlf ∈ items → 9 ∉ body cs ∧ (body cs).head? ≠ some 34)
-    (short : (render items).length < readLimit) (hbin : (render items).any isBinaryByte = false)
+    (short : (render items).length < readLimit) (hseq : seqFormatDetect (render items) = false)
+    (hbin : (render items).any isBinaryByte = false)
     (hcsv : (widthsOK (items.filterMap Item.rawRecord) || ngsOK (items.filterMap Item.rawRecord)) = true) :
     readSheetBytes (render items) = some (csvBranch (items.filterMap Item.record)) :=
-  readSheetBytes_render items hok hq htab short hbin hcsv
+  readSheetBytes_render items hok hq short hseq hbin hcsv
 
 /-- which reader a rendering goes to (same hypotheses) -/
 theorem rendering_reader_choice (items : List Item) (hok : ∀ it ∈ items, it.OK)
     (hq : ∀ cs crlf, Item.row cs crlf ∈ items → ∀ c ∈ cs, (cellBytes c).head? ≠ some 34)
-    (htab : ∀ cs crlf, Item.row cs crlf ∈ items → 9 ∉ body cs ∧ (body cs).head? ≠ some 34)
-    (short : (render items).length < readLimit) (hbin : (render items).any isBinaryByte = false) :
+    (short : (render items).length < readLimit) (hseq : seqFormatDetect (render items) = false)
+    (hbin : (render items).any isBinaryByte = false) :
     whichReader (render items) =
       some (if widthsOK (items.filterMap Item.rawRecord) || ngsOK (items.filterMap Item.rawRecord) then .csv else .old) :=
-  whichReader_render items hok hq htab short hbin
+  whichReader_render items hok hq short hseq hbin
 
 /-- non-vacuity (test on a concrete value): an `@param` line with CRLF and a blank before a field, a comment, an
 empty line, two rows: the declared records come back, and the text goes to the CSV reader through
